@@ -18,7 +18,7 @@ def run(tier, seed):
              relay.suite_relay(tier, seed, "kv", n=20 if tier == "quick" else 120, label="ack", pid="C06"),
              relay.suite_concurrent_dup(tier, seed, ("sql", "kv"))]
     from .. import extra as _x
-    extra = extra + [_x.suite_multi_d_tags(tier, seed), _x.suite_ack_with_failing_broadcast(tier, seed), _x.suite_close_drains_queue(tier, seed)]
+    extra = extra + [_x.suite_multi_d_tags(tier, seed), _x.suite_ack_with_failing_broadcast(tier, seed), _x.suite_close_drains_queue(tier, seed), _x.suite_int_tag_items(tier, seed)]
     return common.drop_foreign(sqlm.suites_c06(tier, seed) + kvb.suites_c06(tier, seed) + extra, "C06")
 
 
